@@ -5,9 +5,17 @@
     uwalk <k> <n>                        Ufs.Walk of n names of which the first k exist
     omode <mode>                         omode2uflags
     clean <comp/comp/…>                  filepath.Clean of the absolute path /comp/comp/…
+    createplan <dotu> <perm> <omode> <extInRoot> <extNumber> <extFid>
+                                         the POSIX calls Ufs.Create makes (G9.UfsPlan)
+    wstatplan <dotu> <mode> <uidnum> <gidnum> <hasUid> <hasGid> <hasName> <destInRoot> <length> <mtime> <atime> <lookupUid|-> <lookupGid|->
+                                         the POSIX calls Ufs.Wstat makes
+    npmode <perm> <dir><symlink><socket><pipe><device><setuid><setgid> <dotu>
+                                         dir2Npmode and dir2QidType of a file with these mode bits
     ufsjudge …                           runs judged by the harness's OS oracle only
 -/
 import G9.UfsLogic
+import G9.UfsPlan
+import G9.UfsMeta
 import G9.Driver.Text
 namespace G9.Driver
 open G9 G9.Ufs G9.Text
@@ -18,8 +26,51 @@ def showW : WRes → String
   | .tooSmall => "tooSmall"
   | .panic => "panic"
 
+def showPOp : UfsPlan.POp → String
+  | .mkdir m => s!"mkdir:{m}"
+  | .symlink => "symlink"
+  | .link => "link"
+  | .openCreate o m => s!"creat:{o}:{m}"
+  | .openPlain o => s!"open:{o}"
+  | .chmod m => s!"chmod:{m}"
+  | .chown u g => s!"chown:{u}:{g}"
+  | .rename => "rename"
+  | .truncate n => s!"truncate:{n}"
+  | .chtimes a (some m) => s!"chtimes:{a}:{m}"
+  | .chtimes a none => s!"chtimes:{a}:file"
+
+def showPlan : UfsPlan.Plan → String
+  | .refuse why => s!"refuse {why}"
+  | .calls l => s!"calls {showList showPOp l}"
+
+def bool? (s : String) : Option Bool := if s == "1" then some true else if s == "0" then some false else none
+def optNatU? (s : String) : Option (Option Nat) := if s == "-" then some none else (nat? s).map some
+
 def ufs (cmd : String) (args : List String) : Option String :=
   match cmd, args with
+  | "npmode", [perm, flags, dotu] => do
+    let perm ← nat? perm
+    let dotu ← bool? dotu
+    match flags.toList.map (· == '1') with
+    | [d, sl, so, pi, de, su, sg] =>
+      let m : UfsMeta.FMode := { perm := perm, dir := d, symlink := sl, socket := so, pipe := pi, device := de, setuid := su, setgid := sg }
+      some s!"{UfsMeta.npmode m dotu} {UfsMeta.qidType m}"
+    | _ => none
+  | "createplan", [dotu, perm, omode, inr, num, fid] => do
+    some (showPlan (UfsPlan.createPlan (← bool? dotu) (← nat? perm) (← nat? omode) (← bool? inr) (← bool? num) (← bool? fid)))
+  | "wstatplan", [dotu, mode, un, gn, hu, hg, hn, dr, len, mt, atm, lu, lg] => do
+    let mode ← nat? mode
+    let un ← nat? un
+    let gn ← nat? gn
+    let hu ← bool? hu
+    let hg ← bool? hg
+    let hn ← bool? hn
+    let dr ← bool? dr
+    let len ← nat? len
+    let mt ← nat? mt
+    let atm ← nat? atm
+    let w : UfsPlan.WReq := { mode := mode, uidnum := un, gidnum := gn, hasUid := hu, hasGid := hg, hasName := hn, destInRoot := dr, length := len, mtime := mt, atime := atm }
+    some (showPlan (UfsPlan.wstatPlan (← bool? dotu) w (← optNatU? lu) (← optNatU? lg)))
   | "dirwin", [ends, off, cnt] => do
     let es ← list? nat? ends
     let total := es.getLastD 0
